@@ -245,6 +245,17 @@ func init() {
 									}
 								}
 								runCase(recv, args)
+								// the same call made just before with a value in the empty position (the empty string, a short string, zero,
+								// a Boolean): nothing of that call may stand in for the empty argument of the next one
+								if pos >= 0 {
+									for _, prime := range []string{"''", "'a'", "0", "true", "'.'"} {
+										pa := append([]string{}, args...)
+										pa[pos] = prime
+										lib.Run(callSrc(recv, name, pa), input(), c07Env(), copts...)
+										r.Eval()
+										runCase(recv, args)
+									}
+								}
 								// the companions of the empty position varied one at a time over values a shortcut could single out
 								for q := -1; q < n; q++ {
 									if q == pos {
